@@ -117,50 +117,40 @@ def mulmid (T : Nat) (tm : List Nat → List Nat → Nat → List Nat) : Nat →
       if an < CHUNK then mulmid_basecase a an b                     -- :58-62
       else
         let k := CHUNK - bn + 1                                     -- :64
-        let cur := mulmid_basecase a CHUNK b                        -- :67
-        let st := hloop (fun a' => mulmid_basecase a' CHUNK b) k CHUNK a (an - k) [] cur      -- :70-83
-        let (done, cur, a, an) := st
-        if an ≥ bn then                                             -- :85
-          let a' := a.drop k                                        -- :89
-          let t0 := cur.getD k 0
-          let t1 := cur.getD (k + 1) 0
-          done ++ cur.take k ++ addback (mulmid_basecase a' an b) t0 t1       -- :90-92
-        else done ++ cur
+        -- :67 first chunk; :70-83 remaining chunks.  st = (done, cur, ap, an)
+        let st := hloop (fun a' => mulmid_basecase a' CHUNK b) k CHUNK a (an - k) [] (mulmid_basecase a CHUNK b)
+        if st.2.2.2 ≥ bn then                                       -- :85 last remaining chunk
+          -- :89-92  ap += k, rp += k; t0 = rp[0], t1 = rp[1]; basecase (rp, ap, an, bp, bn); add back
+          st.1 ++ st.2.1.take k ++
+            addback (mulmid_basecase (st.2.2.1.drop k) st.2.2.2 b) (st.2.1.getD k 0) (st.2.1.getD (k + 1) 0)
+        else st.1 ++ st.2.1
     else
       let rn := an - bn + 1                                         -- :100
       if rn < T then                                                -- :102
         if bn < CHUNK then mulmid_basecase a an b                   -- :106-110
         else
-          -- :116-118: bp += bn - CHUNK, an -= bn - CHUNK; basecase (rp, ap, an, bp, CHUNK)
+          -- :116-118: bp += bn - CHUNK, an -= bn - CHUNK; basecase (rp, ap, an, bp, CHUNK); an' = rn + CHUNK - 1
           let an' := an - (bn - CHUNK)
-          let rp := mulmid_basecase a an' (win b (bn - CHUNK) CHUNK)
-          let st := vloop (fun a' bc => mulmid_basecase a' an' bc) CHUNK a b (bn - CHUNK) rp       -- :120-127
-          let (rp, a, bn') := st
-          if bn' ≠ 0 then                                           -- :129-135
-            let a' := a.drop CHUNK
-            let temp := mulmid_basecase a' (rn + bn' - 1) (win b 0 bn')
-            (add_n rp temp).1
-          else rp
+          -- :120-127 remaining chunks.  st = (rp, ap, bn)
+          let st := vloop (fun a' bc => mulmid_basecase a' an' bc) CHUNK a b (bn - CHUNK)
+                      (mulmid_basecase a an' (win b (bn - CHUNK) CHUNK))
+          if st.2.2 ≠ 0 then                                        -- :129-135 last remaining chunk
+            -- ap += CHUNK, bp -= bn; basecase (temp, ap, rn + bn - 1, bp, bn); add_n (rp, rp, temp, rn + 2)
+            (add_n st.1 (mulmid_basecase (st.2.1.drop CHUNK) (rn + st.2.2 - 1) (win b 0 st.2.2))).1
+          else st.1
       else if bn > rn then                                          -- :144
-        -- :156-159: bp += bn - rn; toom42 (rp, ap, bp, rn)
-        let rp := tm a (win b (bn - rn) rn) rn
-        let st := vloop (fun a' bc => tm a' bc rn) rn a b (bn - rn) rp        -- :162-168
-        let (rp, a, bn') := st
-        if bn' ≠ 0 then                                             -- :170-176
-          let a' := a.drop rn
-          let temp := mulmid T tm fuel a' (rn + bn' - 1) (win b 0 bn')
-          (add_n rp temp).1
-        else rp
+        -- :156-159: bp += bn - rn; toom42 (rp, ap, bp, rn); :162-168 remaining chunks
+        let st := vloop (fun a' bc => tm a' bc rn) rn a b (bn - rn) (tm a (win b (bn - rn) rn) rn)
+        if st.2.2 ≠ 0 then                                          -- :170-176 last chunk: mpn_mulmid itself
+          (add_n st.1 (mulmid T tm fuel (st.2.1.drop rn) (rn + st.2.2 - 1) (win b 0 st.2.2))).1
+        else st.1
       else
-        let cur := tm a b bn                                        -- :208
-        let st := hloop (fun a' => tm a' b bn) bn bn a (rn - bn) [] cur       -- :211-224
-        let (done, cur, a, rn') := st
-        if rn' ≠ 0 then                                             -- :228-237
-          let a' := a.drop bn
-          let t0 := cur.getD bn 0
-          let t1 := cur.getD (bn + 1) 0
-          done ++ cur.take bn ++ addback (mulmid T tm fuel a' (rn' + bn - 1) b) t0 t1
-        else done ++ cur
+        -- :208 first chunk toom42 (rp, ap, bp, bn); :211-224 remaining chunks.  st = (done, cur, ap, rn)
+        let st := hloop (fun a' => tm a' b bn) bn bn a (rn - bn) [] (tm a b bn)
+        if st.2.2.2 ≠ 0 then                                        -- :228-237 last chunk: mpn_mulmid itself, add back
+          st.1 ++ st.2.1.take bn ++
+            addback (mulmid T tm fuel (st.2.2.1.drop bn) (st.2.2.2 + bn - 1) b) (st.2.1.getD bn 0) (st.2.1.getD (bn + 1) 0)
+        else st.1 ++ st.2.1
 
 /-- mpn_toom42_mulmid entering by its specification: {rp, n+2} = MP({ap, 2n-1}, {bp, n}) (used by the driver). -/
 def tmSpec (a b : List Nat) (n : Nat) : List Nat := toLimbs (n + 2) (mpW n a b)
